@@ -172,6 +172,9 @@ def run(tier, seed):
             ob["solver_s"] = round(ob["solver_s"], 3)
             obligations.append(ob)
     obligations.append(last_applied_obligation(prog))
+    # inside a component: the config actor on the leader and on a follower after the same committed requests
+    from . import c07cfg
+    obligations.append(c07cfg.run(tier, seed))
     from lib import native
     import os
     from .common import native_scenarios
